@@ -42,4 +42,7 @@ func checkC07(c *core.Ctx) {
 	ruleErrorMustPropagate(c)
 	ruleEventsDecorator(c)
 	ruleCommitResultPropagated(c)
+	// an atomic bulk is rolled back on the failure of any element: the failure must be recorded
+	// whatever the other options are (C32's rule, an obligation here too)
+	ruleBulkFailureRecorded(c)
 }
